@@ -29,6 +29,7 @@ type c14Case struct {
 	Deco   int    `json:"deco,omitempty"`   // how the hand-made file is decorated around the PEM block (c14Decos)
 	Swap   bool   `json:"swap,omitempty"`   // after the sequence: the key block in the file is replaced by hand with another key of the same kind, then regenerated twice
 	Bundle bool   `json:"bundle,omitempty"` // after the sequence: the file is rewritten with the certificate block three times in front of the key (a chain-style bundle), then regenerated
+	NoStat bool   `json:"noStat,omitempty"` // the file system's Stat call fails for the entity's artifact file in every run (the file itself opens and reads)
 	Reopen bool   `json:"reopen,omitempty"` // every run of the case goes through one database object that is opened again each time
 	Prof   bool   `json:"prof,omitempty"`   // the entity under test names a profile that contributes validity and an extension
 	Place  int    `json:"place,omitempty"`  // 0 flat directory, alias = file stem; 1 configs in sub-directories with explicit aliases that differ from their file stems
@@ -141,6 +142,13 @@ func c14Enumerate(tier string, yield func(any)) {
 		// the entity under test names a profile
 		for _, seq := range [][]int{{}, {0}, {2}} {
 			yield(&c14Case{Origin: "gopki", KeyFix: FixtureForAlg(alg, 0), Seq: seq, Prof: true})
+		}
+		if alg == "P-256" || alg == "RSA-2048" || alg == "brainpoolP256r1" {
+			// an environment answer: the metadata call on the artifact file fails, reading it works
+			for _, seq := range [][]int{{}, {0}, {2}, {0, 2}, {6}} {
+				yield(&c14Case{Origin: "gopki", KeyFix: FixtureForAlg(alg, 0), Seq: seq, NoStat: true})
+				yield(&c14Case{Origin: "csr", KeyFix: FixtureForAlg(alg, 0), CSR: true, Seq: seq, NoStat: true})
+			}
 		}
 		if alg == "P-256" || alg == "RSA-2048" || alg == "brainpoolP256r1" {
 			for _, seq := range [][]int{{}, {0}, {2}, {0, 2}} {
@@ -430,6 +438,11 @@ func c14Exec(x *engine.Ctx, cc any) {
 		}
 		return check(step)
 	}
+	if c.NoStat {
+		w.StatFaults = map[string]bool{ArtifactPath(target.Path): true}
+		desc += " stat-of-the-artifact-fails"
+		feat += " stat-of-the-artifact-fails"
+	}
 	x.Nontrivial(desc + fmt.Sprint(c.Seq))
 	x.State(desc + fmt.Sprint(c.Seq))
 	if !run(0, "initial run") {
@@ -561,7 +574,7 @@ func init() {
 	register(&engine.Check{
 		ID:          "C14",
 		Level:       "model_checking",
-		Rule:        "chain root -> mid -> leaf where mid owns a pre-existing key (so children exist), in a flat directory with file-derived aliases and (trigger sequences of length <=1) in sub-directories with explicit aliases that differ from the file stems. Key origins: each of the 14 algorithms written by gopki's own PKCS#8 writer, standard-library PKCS#8 for RSA 1024/2048/4096 and the NIST curves, reference-built PKCS#8 for all 10 curves in 6 layouts (curve OID outer only, outer + public key, inner only, inner + public key, both + public key, outer + compressed public key, and the RFC 5958 version-2 container with trailing public key, with and without the inner public key), the version-2 container for three RSA sizes, PKCS#8 for all 10 curves whose scalar is written without its one or two leading zero octets; CSR variant: the leaf holds only a request made from 8 key types. Each origin also with the file decorated the way hand-assembled or exported files are (trailing blank line, trailing remark, leading Bag-Attributes text, CRLF line ends, blank lines around, a #HASH line behind the block, the key followed by a traditional-form or an encrypted key block) followed by no trigger, edit-subject or generate-all. From each, every trigger sequence of length <=2 for 15 representative origins and <=1 for the others (quick) / <=3 for every origin (thorough) over {edit subject, touch + generate-outdated, generate-all, strip certificate block, expire (dates in the past), renew + generate-expired, regenerate issuer, change keyAlgorithm to RSA, to another curve, strip hash line}. For every key algorithm also: the entity (key-holding, and request-based for three key types) names a profile that contributes validity and an extension; the artifact rewritten with its certificate block three times in front of the key or request (bundle layout) and regenerated; after the first run(s) the key block is replaced by hand with another key of the same kind, then generate-all and an edit (the new key is the entity's key from then on; for three key types also with one database object that is opened again for every run). After every run: stored key is the same key, certificate SPKI is its public key, mid verifies under root and leaf under mid with byte-equal issuer DN; CSR variant: SPKI bytes = request SPKI, request block byte-identical, no PRIVATE KEY block. states = (origin, trigger prefix), transitions = runs",
+		Rule:        "chain root -> mid -> leaf where mid owns a pre-existing key (so children exist), in a flat directory with file-derived aliases and (trigger sequences of length <=1) in sub-directories with explicit aliases that differ from the file stems. Key origins: each of the 14 algorithms written by gopki's own PKCS#8 writer, standard-library PKCS#8 for RSA 1024/2048/4096 and the NIST curves, reference-built PKCS#8 for all 10 curves in 6 layouts (curve OID outer only, outer + public key, inner only, inner + public key, both + public key, outer + compressed public key, and the RFC 5958 version-2 container with trailing public key, with and without the inner public key), the version-2 container for three RSA sizes, PKCS#8 for all 10 curves whose scalar is written without its one or two leading zero octets; CSR variant: the leaf holds only a request made from 8 key types. Each origin also with the file decorated the way hand-assembled or exported files are (trailing blank line, trailing remark, leading Bag-Attributes text, CRLF line ends, blank lines around, a #HASH line behind the block, the key followed by a traditional-form or an encrypted key block) followed by no trigger, edit-subject or generate-all. From each, every trigger sequence of length <=2 for 15 representative origins and <=1 for the others (quick) / <=3 for every origin (thorough) over {edit subject, touch + generate-outdated, generate-all, strip certificate block, expire (dates in the past), renew + generate-expired, regenerate issuer, change keyAlgorithm to RSA, to another curve, strip hash line}. For three key types, key-holding and request-based, every run of 5 trigger sequences with the file system's Stat call failing for the entity's artifact file (the file opens and reads). For every key algorithm also: the entity (key-holding, and request-based for three key types) names a profile that contributes validity and an extension; the artifact rewritten with its certificate block three times in front of the key or request (bundle layout) and regenerated; after the first run(s) the key block is replaced by hand with another key of the same kind, then generate-all and an edit (the new key is the entity's key from then on; for three key types also with one database object that is opened again for every run). After every run: stored key is the same key, certificate SPKI is its public key, mid verifies under root and leaf under mid with byte-equal issuer DN; CSR variant: SPKI bytes = request SPKI, request block byte-identical, no PRIVATE KEY block. states = (origin, trigger prefix), transitions = runs",
 		Bound:       map[string]string{"trigger sequence": "quick<=2 thorough<=3"},
 		Assumptions: []string{"key identity is compared on the private scalar / (N, D)"},
 		Budget:      budgets(quickBudget, thoroughBudget),
